@@ -269,6 +269,7 @@ var encodeBounded = map[string]string{
 	"json.(encoder).encodeEmbeddedStructPointer": "embedded pointers are flattened into the parent's field list with a visited-type set, so the chain is bounded by the static type",
 	"json.(encoder).encodeInterface":             "an interface holds a by-value box; a cycle needs a pointer, map or slice inside it, and those are guarded",
 	"json.(encoder).encodeMaybeEmptyInterface":   "same as encodeInterface",
+	"json.constructNilKeyEncodeFunc$1":           "map-key adapter: loads the key pointer only to compare it with nil and forwards the same address to the key encoder (MarshalText of the key); it adds no reference step of its own",
 }
 
 func runRec(c *core.Ctx) []core.Obligation {
@@ -704,6 +705,30 @@ func runRec(c *core.Ctx) []core.Obligation {
 	}
 	if nDrop == 0 {
 		b.addP([]string{"C06"}, core.Discharged, "state-threaded", "-", "no encoder method re-enters Append with a fresh state")
+	}
+	// the same for decoding: a decoder method that re-enters Parse / Unmarshal starts a new
+	// decoder whose depth is 0 — the nesting limit is then counted per interface boundary, not per
+	// document, and a target that points back to itself through an interface follows the input as
+	// deep as it goes
+	nDropD := 0
+	for _, fn := range c.RepoFunctions() {
+		recv := fn.Signature.Recv()
+		if recv == nil || namedKey(recv.Type()) != "json.decoder" || fn.Synthetic != "" {
+			continue
+		}
+		for _, ci := range callsIn(fn) {
+			call, ok := ci.(*ssa.Call)
+			if !ok {
+				continue
+			}
+			if f := staticCallee(call.Common()); f != nil && (f.Name() == "Parse" || f.Name() == "Unmarshal") && f.Pkg != nil && f.Pkg.Pkg.Name() == "json" && f.Signature.Recv() == nil {
+				nDropD++
+				b.addP([]string{"C06", "C02"}, core.Violation, "state-dropped:"+shortName(fn), c.InstrPos(call), fmt.Sprintf("%s re-enters %s, which starts from a fresh decoder{}: the nesting depth counted so far is lost at every interface that holds a pointer, so the limit is not enforced across it (a target whose interface field points back to the target follows {\"F\":{\"F\":… as deep as the input goes, until the stack is exhausted) and the whole remaining input is re-scanned at each level", shortName(fn), f.Name()))
+			}
+		}
+	}
+	if nDropD == 0 {
+		b.addP([]string{"C06", "C02"}, core.Discharged, "state-threaded:decode", "-", "no decoder method re-enters Parse with a fresh state")
 	}
 	return b.out
 }
